@@ -43,6 +43,9 @@ func (cl Serializer) EncodeDnsResponseWithParams(resp Response, request *dns.Msg
 
 	msg := &dns.Msg{}
 	msg.SetReply(request)
+	// Owner names of the answer records repeat the query name; compressed, they cost two octets each, so
+	// the size of an answer does not grow with the length of the query name once per record.
+	msg.Compress = true
 	err = util.WrapDnsResponse(msg, []byte(data), qt, cl.Domain)
 	return msg, err
 }
